@@ -119,30 +119,33 @@ def answer(tb, method, target, hdrs):
 
 def expected_why(tb, stream):
     """what a client that sent `stream` on one connection must observe:
-    (bytes, end, why, consumed) with end in open | closed | stalled | unknown; why names the request
-    that decided the end (malformed | badrange | close | keepalive_off | stall | open | unknown);
-    consumed = number of stream bytes up to the end of the last request looked at"""
+    (bytes, end, why, consumed, idle) with end in open | closed | stalled | unknown; why names the
+    request that decided the end (malformed | badrange | close | keepalive_off | stall | open |
+    unknown); consumed = number of stream bytes up to the end of the last request looked at;
+    idle = the stream offsets behind an answered request after which the connection stays open"""
     out = b""
     pos = 0
+    idle = []
     while True:
         i = stream.find(b"\r\n\r\n", pos)
         if i < 0:
-            return out, "open", "open", pos
+            return out, "open", "open", pos, idle
         block = stream[pos:i + 4]
         pos = i + 4
         c = classify(block)
-        if c[0] == "malformed": return out, "closed", "malformed", pos
-        if c[0] == "unknown": return out, "unknown", "unknown", pos
+        if c[0] == "malformed": return out, "closed", "malformed", pos, idle
+        if c[0] == "unknown": return out, "unknown", "unknown", pos, idle
         a = answer(tb, c[1], c[2], c[3])
-        if a[0] == "stall": return out, "stalled", "stall", pos
-        if a[0] == "close": return out, "closed", "badrange", pos
-        if a[0] == "unknown": return out, "unknown", "unknown", pos
+        if a[0] == "stall": return out, "stalled", "stall", pos, idle
+        if a[0] == "close": return out, "closed", "badrange", pos, idle
+        if a[0] == "unknown": return out, "unknown", "unknown", pos, idle
         out += a[1]
         want_close = c[3].get(b"connection", b"").lower() == b"close"
         if want_close:
-            return out, "closed", "close", pos
+            return out, "closed", "close", pos, idle
         if not tb.keepalive:
-            return out, "closed", "keepalive_off", pos
+            return out, "closed", "keepalive_off", pos, idle
+        idle.append(pos)
 
 
 def expected(tb, stream):
@@ -245,6 +248,10 @@ def _check(impl, scn, st=None):
                 live = [s for s in servers.values() if s["port"] == port and s["alive"] and not s["stopped"]]
                 if port in stop_seen and not live and resl and resl[0] == "in_use":
                     fails.append(("stop_frees_port", "%s: port %d still in use after stop()" % (o, port)))
+                if resl and resl[0] == "ok" and not live:
+                    # the port now belongs to a listener that is not an http_server: whoever dials
+                    # it from here on is no client of a server this monitor knows
+                    port_of.pop(port, None)
                 continue
             if not o.startswith("s"): continue
             if m == "connect" and len(op) > 2:
@@ -255,13 +262,14 @@ def _check(impl, scn, st=None):
                 S = servers[sv]
                 c = dict(sock=o, server=sv, h=op[2], conn=None, conn_seq=None, reading=False, sent=b"", issued=b"", pending=0, recv=[], eof=False, rerr=None,
                          closed_by_client=False, refuse_expected=(S["stopped"] or not S["alive"]),
-                         sends={}, nsend=0, touched=False, seq=seq)
+                         sends={}, nsend=0, send_at=[], touched=False, seq=seq)
                 clients[o] = c; order.append(o); hmap[op[2]] = ("connect", o)
             elif o in clients:
                 c = clients[o]
                 if m == "send" and len(op) > 1:
                     hmap[op[1]] = ("send", o, _unhex(d.get("data", "-")))
                     # the stream the client offers: composed writes are issued one after the other
+                    c["send_at"].append(len(c["issued"]))
                     c["issued"] += _unhex(d.get("data", "-")); c["pending"] += 1; c["nsend"] += 1
                 elif m == "read_loop" and len(op) > 1:
                     hmap[op[1]] = ("read", o); c["reading"] = True
@@ -316,6 +324,7 @@ def _check(impl, scn, st=None):
         mine.sort(key=lambda c: (0, c["conn_seq"]) if c["conn"] == "ok" else (1, c["seq"]))
         blocked = False          # an earlier connection is (as far as the statement tells) still held by the server
         stop_seq = S.get("stop_seq")        # first stop() / destructor of this server (None: never)
+        if stop_seq is not None and (quiet_seq is None or stop_seq < quiet_seq): cnt("stop_in_run")
         for c in mine:
             if c["touched"]: blocked = True; continue
             if c["refuse_expected"]:
@@ -345,7 +354,7 @@ def _check(impl, scn, st=None):
                 blocked = True; continue
             # what the bytes offered by this client call for; the server may stop consuming them
             # (a closing response) before all of them were even accepted by the client's TCP
-            exp, end, why, consumed = expected_why(S["tb"], c["issued"])
+            exp, end, why, consumed, idle = expected_why(S["tb"], c["issued"])
             cnt("clients")
             # received bytes against the expected stream, chunk by chunk
             pos = 0; bad = False
@@ -371,6 +380,8 @@ def _check(impl, scn, st=None):
             if complete:
                 cnt("complete")
                 if c["nsend"] > 1: cnt("complete_cut")
+                # sequential use: a write that starts exactly where the connection had gone idle
+                if any(o in idle for o in c["send_at"][1:]): cnt("complete_idle_next")
             if stop_seq is not None and (quiet_seq is None or stop_seq < quiet_seq) and c["conn_seq"] < stop_seq:
                 # the connection was there when stop() came (counters only)
                 gone = [x for x in (c.get("eof_seq"), c.get("close_seq")) if x is not None]
@@ -379,6 +390,8 @@ def _check(impl, scn, st=None):
                     cnt("stop_open"); cnt("stop_open_" + kind)
                     if lossy: cnt("stop_open_lossy")
                     if complete: cnt("stop_open_complete")
+                    # ... and the server closed it afterwards: its closing path ran while stopping
+                    if c["eof"]: cnt("stop_then_eof_" + kind)
             if complete and pos < len(exp):
                 fails.append(("responses", "%s: only %d of the %d expected response bytes arrived (%d request bytes offered), simulation quiescent" % (c["sock"], pos, len(exp), len(c["issued"]))))
                 blocked = True; continue
